@@ -150,7 +150,7 @@ fn all_states(shape: &Shape, origin: u8, misses: u32) -> Vec<[u32; 6]> {
     v
 }
 
-fn build(shape: &Shape, origin: u8, worst: bool, misses: Option<u32>, acc: f64) -> Performance<'static> {
+fn build(shape: &Shape, passed: Option<u32>, origin: u8, worst: bool, misses: Option<u32>, acc: f64) -> Performance<'static> {
     let mut d = Difficulty::new();
     match origin {
         1 => d = d.lazer(false),
@@ -162,6 +162,9 @@ fn build(shape: &Shape, origin: u8, worst: bool, misses: Option<u32>, acc: f64) 
             d = d.mods(ModSpec::Classic(None).build(mode));
         }
         _ => {}
+    }
+    if let Some(k) = passed {
+        d = d.passed_objects(k);
     }
     let mut p = Performance::new(shape.attrs()).difficulty(d).accuracy(acc);
     if let Some(m) = misses {
@@ -218,15 +221,27 @@ fn main() {
     ctx.rule("case = (attribute shape with <= 5 (quick) / 8 (thorough) objects, miss count incl. unset and beyond the object count, origin lazer/stable/classic where the mode distinguishes them, priority); per case the targets are a 0.5% grid united with every achievable accuracy and every midpoint between neighbouring achievable accuracies +-1e-9; oracle = misses as given (clamped to the objects) and |target - accuracy(generated)| <= min over all distributions with the same misses + 1e-12; non-trivial = more than one achievable accuracy");
     ctx.assume("accuracy is the documented formula per mode (osu! slider parts at their maximum because they are not specified); ties are not violations");
 
-    let shapes = shapes(&ctx);
-    for (si, shape) in shapes.iter().enumerate() {
+    // (attribute shape, passed_objects): for taiko — where the judgements of a partial play are simply the first k hits — the
+    // attributes of the whole map are also used with passed_objects(k), k < max combo; `shape` is then the shape the
+    // distributions range over and `full` the attributes handed to the calculator
+    let mut entries: Vec<(Shape, Shape, Option<u32>)> = shapes(&ctx).into_iter().map(|s| (s, s, None)).collect();
+    for combo in [2u32, 3, 5, 8, 12] {
+        let mut ks = vec![0, 1, combo / 2, combo - 1];
+        ks.sort_unstable();
+        ks.dedup();
+        for k in ks {
+            entries.push((Shape::Taiko { combo: k }, Shape::Taiko { combo }, Some(k)));
+        }
+    }
+    for (si, (shape, full, passed)) in entries.iter().enumerate() {
+        let passed = *passed;
         let n = shape.objects();
         let origins: u64 = if shape.has_origins() { 3 } else { 1 };
         let prios: u64 = if matches!(shape, Shape::Catch { .. }) { 1 } else { 2 };
         // miss options: unset, 0..=n, n+2
         let miss_opts = u64::from(n) + 3;
         let total = origins * prios * miss_opts;
-        let name = format!("shape{si}/{shape:?}").replace(' ', "");
+        let name = if passed.is_some() { format!("shape{si}/{full:?}/passed_objects={}", n).replace(' ', "") } else { format!("shape{si}/{shape:?}").replace(' ', "") };
         ctx.universe(&name, total, |idx, l: &mut Local<'_>| {
             let origin = (idx % origins) as u8;
             let r = idx / origins;
@@ -264,11 +279,11 @@ fn main() {
             l.states(states.len() as u64);
             for t in targets {
                 let t = t.clamp(0.0, 100.0);
-                let g = build(shape, origin, worst, misses_arg, t).generate_state();
+                let g = build(full, passed, origin, worst, misses_arg, t).generate_state();
                 let gs = slots(&g);
                 l.checked(1);
                 if g.misses != misses {
-                    l.violation("misses", || format!("shape={shape:?} origin={origin} worst={worst} misses={misses_arg:?} target={t}\ngenerated state has {} misses, expected {misses}: {g:?}", g.misses));
+                    l.violation("misses", || format!("attributes={full:?} passed_objects={passed:?} shape={shape:?} origin={origin} worst={worst} misses={misses_arg:?} target={t}\ngenerated state has {} misses, expected {misses}: {g:?}", g.misses));
                     return;
                 }
                 let ga = frac(acc_frac(shape, origin, &gs));
@@ -288,7 +303,7 @@ fn main() {
                     let mode = mode.split(' ').next().unwrap_or("").to_lowercase();
                     l.violation(&format!("not_closest_{mode}"), || {
                         format!(
-                            "shape={shape:?} origin={origin} (0 lazer, 1 stable, 2 classic) worst={worst} misses={misses_arg:?} target accuracy={t}%\ngenerated {g:?}\n accuracy {ga} at distance {gd}; a distribution with the same misses reaches distance {best}"
+                            "attributes={full:?} passed_objects={passed:?} shape={shape:?} origin={origin} (0 lazer, 1 stable, 2 classic) worst={worst} misses={misses_arg:?} target accuracy={t}%\ngenerated {g:?}\n accuracy {ga} at distance {gd}; a distribution with the same misses reaches distance {best}"
                         )
                     });
                     return;
